@@ -181,7 +181,7 @@ def _fresh_verdict(sdl, model, via="validate"):
         return ("invalid", tuple(sorted(str(e) for e in err.errors)))
 
 
-def _label(model):
+def _label(model, targets=()):
     """Verdict known without consulting the validator, or None."""
     assigned = [fn for fn in list(model["fields"].values())
                 + list(model["types"].values())
@@ -190,6 +190,14 @@ def _label(model):
     bad = [fn for fn in model["fields"].values() if fn in ALWAYS_INVALID]
     if bad:
         return "invalid", bad[0].__name__
+    # a per-type default resolver serves every field of the type that has no
+    # resolver of its own -- whatever the schema-wide default is (resolution
+    # order: field, type, schema)
+    for t, fn in sorted(model["types"].items()):
+        if fn in ALWAYS_INVALID and any(
+                tt == t and model["fields"].get((tt, ff)) is None
+                for tt, ff in targets):
+            return "invalid", "%s as default of %s" % (fn.__name__, t)
     if all(fn in ALWAYS_VALID for fn in assigned):
         return "valid", None
     return None, None
@@ -210,7 +218,15 @@ MUTANTS = (
     ("non-covariant",
      "interface Named2 {\n  name: String!\n}\n\ntype Un implements Named2 "
      "{\n  name: String\n}\n\nextend type %(q)s {\n  m_un: Un\n}"),
+    # three violations on ONE (object, interface) pair: a missing field first,
+    # then a wrong type and a missing argument
+    ("three-on-one-pair",
+     "interface Shape3 {\n  aa: Int\n  bb: Int\n  cc(x: Int): Int\n}\n\n"
+     "type Sq5 implements Shape3 {\n  bb: String\n  cc: Int\n}\n\n"
+     "extend type %(q)s {\n  m_sq5: Sq5\n}"),
 )
+# violations each labelled mutant injects ("reporting all violations together")
+MUTANT_COUNTS = {"three-on-one-pair": 3}
 
 
 def run_machine(draws, state, tier):
@@ -246,6 +262,18 @@ def run_machine(draws, state, tier):
             if "noimpl" in flavour:
                 members["impl"] = ObjectType(
                     "Impl", [Field("other", Int)], interfaces=[iface])
+            if "sharedfield" in flavour:
+                # code-first style: the SAME Field objects listed by several
+                # types; only one of them has a (narrow) default resolver and
+                # a duplicate of a shared field
+                from py_gql.schema import Argument
+                common = [Field("ident", Int, [Argument("a_int", Int)]),
+                          Field("label", String)]
+                members["sh1"] = ObjectType("Sh1", common + [Field("x", Int)])
+                members["sh2"] = ObjectType(
+                    "Sh2", common + [Field("label", Int)],
+                    default_resolver=r_two)
+                members["sh3"] = ObjectType("Sh3", common + [Field("y", Int)])
             if "union" in flavour:
                 members["u"] = UnionType("AnyOf", [foo1, bar])
             baz = ObjectType("Baz", [Field("foo", foo1), Field("bar", bar)])
@@ -267,7 +295,7 @@ def run_machine(draws, state, tier):
                 return ("invalid", (str(err),))
             return ("valid", ())
 
-        flavour = [f for f in ("dup", "noimpl", "union")
+        flavour = [f for f in ("dup", "noimpl", "union", "sharedfield")
                    if st.chance(1, 2, "flavour_" + f)]
         verdicts = []
         for _k in range(4):
@@ -321,6 +349,13 @@ def run_machine(draws, state, tier):
             res.count("probe:labelled_invalid_document_accepted")
         else:
             res.count("probe:invalid_documents_rejected")
+            want_n = sum(MUTANT_COUNTS.get(m[0], 1) for m in chosen)
+            if len(verdicts[0][1]) < want_n:
+                V.append(Violation(
+                    P, "reported_together", ("fewer",),
+                    "labelled violations %r make at least %d messages, %d "
+                    "reported: %r" % ([m[0] for m in chosen], want_n,
+                                      len(verdicts[0][1]), verdicts[0][1])))
             if len(verdicts[0][1]) >= 2:
                 res.count("probe:multiple_violations_reported_together")
     else:
@@ -528,7 +563,7 @@ def run_machine(draws, state, tier):
                 got = _verdict(live, via)
                 want = _fresh_verdict(sdl, model)
                 res.count("checks")
-                lab, lab_fn = _label(model)
+                lab, lab_fn = _label(model, targets)
                 if lab is not None and want[0] != lab:
                     # live and fresh agree or not, the reference itself
                     # contradicts a verdict known by construction
